@@ -3,13 +3,61 @@
 spec -> code: every scenario of the two Redaction_gen.tla families (raw JSON objects, well-formed signed PDUs)
 for all 16 registered room versions is concretised and redacted by the real code; key sets, values, idempotence,
 type/sender/room/state key, event ID and signatures are compared with what the specification derives.
+Unlisted keys are also drawn from the member names the tree under test itself uses (kind vocab), and every observed
+redaction is preceded by other calls in the same process, of which it must be independent (kind hist).
 code -> spec: seeded random events with random extra keys are redacted by the real code, logged, and the kept key
 sets of every line are recomputed by Redaction_trace.tla."""
+import json
 import os
+import re
 
-from vlib.core import MachineryError
+from vlib.core import MachineryError, REPO
 
 PKG = "c05"
+
+# the top-level keys some redaction algorithm lists (Redaction.tla: TopKeepOld), for the case-variant split only:
+# what is listed where is decided by the specification, not here
+_TOP_LISTED = ("event_id", "type", "room_id", "sender", "state_key", "content", "hashes", "signatures", "depth",
+               "prev_events", "prev_state", "auth_events", "origin", "origin_server_ts", "membership")
+_CONTENT_LISTED = ("membership", "join_authorised_via_users_server", "creator", "join_rule", "allow", "ban", "events",
+                   "events_default", "kick", "redact", "state_default", "users", "users_default", "invite",
+                   "history_visibility", "aliases", "redacts", "third_party_invite")
+_NAME = re.compile(r"[A-Za-z_][A-Za-z0-9_.\-]{0,40}")
+
+
+def gather_vocabulary(repo):
+    """Every JSON member name the library's own sources use: `json:"<name>` struct tags of all non-test Go files,
+    and the name-like string literals of the files that address JSON by path (gjson / sjson).  Returns
+    (names, casevariants): sorted, duplicate-free, disjoint; `casevariants` differ from a listed top-level key only
+    in letter case."""
+    found = set()
+    for root, dirs, files in os.walk(repo):
+        dirs[:] = [d for d in dirs if not d.startswith(".") and d != "testdata"]
+        for f in files:
+            if not f.endswith(".go") or f.endswith("_test.go") or f.startswith("zz_verif"):
+                continue
+            try:
+                with open(os.path.join(root, f), encoding="utf-8", errors="replace") as fh:
+                    src = fh.read()
+            except OSError:
+                continue
+            for m in re.finditer(r'json:\\?"([^",\\]+)', src):
+                found.add(m.group(1))
+            if "tidwall/gjson" in src or "tidwall/sjson" in src:
+                for m in re.finditer(r'"((?:[^"\\\n]|\\.)*)"', src):
+                    if _NAME.fullmatch(m.group(1)):
+                        found.add(m.group(1))
+    found = {n for n in found if n != "-" and '"' not in n and "\\" not in n and n.isprintable() and len(n) <= 60}
+    listed_folded = {k.lower(): k for k in _TOP_LISTED}
+    names, case = [], []
+    for n in sorted(found):
+        if n.lower() in listed_folded and n not in _TOP_LISTED:
+            case.append(n)
+        else:
+            names.append(n)
+    if len(names) < 40:
+        raise MachineryError("vocabulary gathered from %s has only %d names" % (repo, len(names)))
+    return names, case
 
 
 def run(ctx):
@@ -27,8 +75,17 @@ def run(ctx):
         "second server; "
         "the signature scheme is assumed unforgeable",
         "keys containing a double quote or a backslash are not generated (canonical JSON of such keys is C01's subject)",
+        "earlier calls of the same process (history dimension) run on the goroutine of the observed call, immediately "
+        "before it; state that only another goroutine / a later garbage collection would expose is not exercised",
     ]
     ctx.exhaustive = True
+    # the vocabulary of the "everything else is removed" clause: what the tree under test itself names
+    names, case = gather_vocabulary(REPO)
+    vocab = os.path.join(ctx.scratch, "c05_vocab.json")
+    with open(vocab, "w") as f:
+        json.dump({"names": names, "casevariants": case}, f)
+    env = {"C05_VOCAB": vocab}
+    ctx.log("vocabulary: %d names (+%d case variants of listed top-level keys) from %s" % (len(names), len(case), REPO))
     ctx.notes["rule"] = (
         "every scenario of Redaction_gen.tla: 16 room versions x 8 event types (7 protected + other) x presence shapes "
         "over the pool of optional top-level keys and candidate content keys of the type (none, each key alone, each "
@@ -36,16 +93,56 @@ def run(ctx):
         "third_party_invite in 5 nested shapes) x value-class offsets (%s), families raw (each scenario in 3 spellings "
         "of the JSON text) and pdu (depth 0 / origin_server_ts 0 by offset; trusted, untrusted, with-event-ID, headered, "
         "SetUnsigned, already-redacted and EventBuilder.Build entry points); "
-        "distinct = distinct (family, algorithm, type, kept top-level set, kept content set, kept nested set)"
+        "kind vocab: the unlisted keys are drawn from every JSON member name of the library's own non-test sources "
+        "(%d names gathered from %s: struct tags, name-like literals of the files using gjson / sjson) minus what the "
+        "algorithm lists for the position, in chunks of %s as extra top-level keys and as extra content keys of "
+        "every type, both families, %s; "
+        "kind hist: the observed redaction is preceded in the same process by earlier calls (RedactEventJSON / "
+        "trusted parse + Redact / untrusted parse with a hash mismatch; accepted, or refused for a non-object content "
+        "or a non-string type; every algorithm) whose events carry a distinctive value under every listed key: all "
+        "100 single calls%s before 3 event types x 2 shapes; every record of the other kinds is decorated with such "
+        "calls derived from (seed, position); "
+        "distinct = distinct (family, algorithm, type, kept top-level set, kept content set, kept nested set[, history])"
         % ("raw: all 12 with the full lattice; pdu: 0-5 full, 6-11 none/singles/all" if ctx.tier == "thorough"
            else "offset 0 with the full lattice (for 6 versions, one per event format x algorithm; the other "
-                "10 none/singles/all), offsets 4 and 8 with none/singles/all, the other 9 offsets with the shape all"))
-    ctx.notes["constants"] = "Redaction_gen_{raw,pdu}_%s.cfg" % ctx.tier
-    for fam in ("raw", "pdu"):
-        r = ctx.tlc("Redaction_gen", "Redaction_gen_%s_%s.cfg" % (fam, ctx.tier), timeout=1500)
+                "10 none/singles/all), offsets 4 and 8 with none/singles/all, the other 9 offsets with the shape all",
+           len(names) + len(case), REPO,
+           "3" if ctx.tier == "thorough" else "6",
+           "16 versions" if ctx.tier == "thorough" else "6 versions (one per event format x algorithm)",
+           " and pairs of RedactEventJSON calls with different outcomes" if ctx.tier == "thorough" else ""))
+    ctx.notes["constants"] = "Redaction_gen_{raw,pdu,extra}_%s.cfg" % ctx.tier
+    for fam in ("raw", "pdu", "extra"):
+        r = ctx.tlc("Redaction_gen", "Redaction_gen_%s_%s.cfg" % (fam, ctx.tier), timeout=1500, env=env)
+        if fam == "extra":
+            vocabulary_covered(r.records, names, case)
         ctx.replay_and_compare("c05", r.records, pkg=PKG)
         del r
     record_and_validate(ctx, 4000 if ctx.tier == "quick" else 200000)
+
+
+def vocabulary_covered(records, names, case):
+    """Generator sanity: every vocabulary name is an extra key at the top level and in the content of every event
+    type, for every algorithm and both families - unless the specification lists it there (then it is no extra)."""
+    top, con = {}, {}
+    for r in records:
+        if r.get("kind") != "vocab":
+            continue
+        if isinstance(r["top"], dict):
+            top.setdefault((r["fam"], r["algo"]), set()).update(r["top"])
+        if isinstance(r["con"], dict):
+            con.setdefault((r["fam"], r["algo"], r["type"]), set()).update(r["con"])
+    if len(top) != 10 or len(con) != 80:
+        raise MachineryError("vocab records cover %d (family, algorithm) and %d (family, algorithm, type) combinations, "
+                             "expected 10 and 80" % (len(top), len(con)))
+    for k, seen in top.items():
+        missing = [n for n in names if n not in seen and n not in _TOP_LISTED]
+        missing += [n for n in case if k[0] == "raw" and n not in seen]
+        if missing:
+            raise MachineryError("vocabulary names never tried as top-level keys for %s: %s" % (k, missing[:10]))
+    for k, seen in con.items():
+        missing = [n for n in names + case if n not in seen and n not in _CONTENT_LISTED]
+        if missing:
+            raise MachineryError("vocabulary names never tried as content keys for %s: %s" % (k, missing[:10]))
 
 
 def _fresh(ctx, probe):
